@@ -8,6 +8,9 @@
 //!                                through the public API, then `finish()`                         -> ok
 //!   view <io|ooo> <done0> <V…>   level B: a view built from the description, rendered with
 //!                                `to_html_stream_in_order()` / `to_html_stream_out_of_order()`   -> ok
+//!   viewf <io|ooo> <done0> <V…>  level B, free interleaving: `poll` does NOT drain the executor first and prints `-` (the model
+//!                                cannot know which boundary futures are ready then); only the oracles and the final document count -> ok
+//!   drain                        level B: run the executor until idle                                       -> ok
 //!   send <k,…>                   complete the oneshot futures k                                  -> ok
 //!   run <i,…|->                  level B: `poll_nth_ready(i)` for each i (executor order), no-op on level A -> ok
 //!   poll                         (level B: executor drained FIFO first) one `poll_next` with a no-op waker
@@ -16,7 +19,7 @@
 //! <done0>: futures completed before rendering (`now_or_never` paths).
 //! P tokens: s<hex> push_sync | a<f>[ P… ] push_async (future: await f, sub-builder new(clone_id()), run body,
 //!   finish().take_chunks()) | f<hex> push_fallback(InertElement(html)) | o<f>[ P… ] push_async_out_of_order(Some(view))
-//!   | O<f> push_async_out_of_order(None) | n<f>:<hexnonce>[ P… ] …_with_nonce | i next_id
+//!   | O<f> push_async_out_of_order(None) | n<f>:<hexnonce>[ P… ] …_with_nonce | i next_id | F `*buf = take(buf).finish()`
 //!   | b[ P… ] StreamBuilder::new(clone_id()) + body + append (what ErrorBoundary does);  <f> = k or k.k2 (all of them)
 //! V tokens: t<hex> text | e<tag>[ V… ] element | q[ V… ] tuple | l[ V… ] Vec | s<k>[ V… ] Suspend::new(async{rx_k.await; (V…)})
 //!   | S<fb|->[ V… ] <Suspense fallback=<u>fb</u>|()> | T<fb|->[ V… ] <Transition> | A<k>[ V… ] <Await future=rx_k>
@@ -92,6 +95,7 @@ enum Op {
     Ooo { deps: Vec<usize>, replace: bool, body: Vec<Op>, nonce: Option<String> },
     NextId,
     Sub(Vec<Op>),
+    Finish,
 }
 
 fn parse_deps(s: &str) -> Option<Vec<usize>> {
@@ -123,6 +127,7 @@ fn parse_ops(toks: &[&str], i: &mut usize) -> Option<Vec<Op>> {
             "s" => out.push(Op::Sync(unhex_str(arg)?)),
             "f" => out.push(Op::Fallback(unhex_str(arg)?)),
             "i" if arg.is_empty() => out.push(Op::NextId),
+            "F" if arg.is_empty() => out.push(Op::Finish),
             "b" if arg == "[" => out.push(Op::Sub(body(i)?)),
             "a" => {
                 let deps = parse_deps(arg.strip_suffix('[')?)?;
@@ -191,6 +196,10 @@ fn run_prog(ops: &[Op], buf: &mut StreamBuilder, position: &mut Position, env: &
                 }
             }
             Op::NextId => buf.next_id(),
+            Op::Finish => {
+                let b = std::mem::take(buf);
+                *buf = b.finish();
+            }
             Op::Sub(body) => {
                 let mut nb = StreamBuilder::new(buf.clone_id());
                 let mut pos = *position;
@@ -259,7 +268,7 @@ fn doc_of(ops: &[Op], ooo: bool) -> String {
             }
             (Op::Sync(s), _) | (Op::Fallback(s), _) => out.push_str(s),
             (Op::Async(_, body), _) | (Op::Sub(body), _) => out.push_str(&doc_of(body, ooo)),
-            (Op::Ooo { .. }, _) | (Op::NextId, _) => {}
+            (Op::Ooo { .. }, _) | (Op::NextId, _) | (Op::Finish, _) => {}
         }
         i += 1;
     }
@@ -608,6 +617,10 @@ struct Case {
     known_class: bool,
     dead: bool,
     finished: bool,
+    free: bool,
+    /// every base future of the case; `ended`: the stream has returned `Ready(None)` once
+    all_futs: Vec<usize>,
+    ended: bool,
 }
 
 thread_local! {
@@ -631,7 +644,7 @@ fn drop_case() {
     sched::reset();
 }
 
-fn start(level_b: bool, mode: &str, d0: &str, toks: &[&str]) -> String {
+fn start(level_b: bool, free: bool, mode: &str, d0: &str, toks: &[&str]) -> String {
     drop_case();
     let ooo = match mode {
         "io" => false,
@@ -666,15 +679,19 @@ fn start(level_b: bool, mode: &str, d0: &str, toks: &[&str]) -> String {
         let mut f = Facts::default();
         facts(&root, &vec![], &Some(None), &mut f);
         let known_class = has_eb(&root) || has_nested_suspend(Ctx::Top, &root);
+        let mut all_futs = vec![];
+        futs_of_views(std::slice::from_ref(&root), &mut all_futs);
         Case {
             env, owner, stream: Some(Box::pin(stream)), ooo, level_b, reference, raw: String::new(), facts: f,
-            known_class, dead: false, finished: false,
+            known_class, dead: false, finished: false, free, all_futs, ended: false,
         }
     } else {
         let Some(ops) = parse_ops(toks, &mut i) else { return "bad-op".into() };
         if i != toks.len() {
             return "bad-op".into();
         }
+        let mut all_futs = vec![];
+        futs_of_ops(&ops, &mut all_futs);
         let stream = owner.with(|| {
             let mut b = StreamBuilder::new(if ooo { Some(vec![0]) } else { None });
             run_prog(&ops, &mut b, &mut Position::FirstChild, &env);
@@ -682,11 +699,26 @@ fn start(level_b: bool, mode: &str, d0: &str, toks: &[&str]) -> String {
         });
         Case {
             env, owner, stream: Some(Box::pin(stream)), ooo, level_b, reference: doc_of(&ops, ooo), raw: String::new(),
-            facts: Facts::default(), known_class: false, dead: false, finished: false,
+            facts: Facts::default(), known_class: false, dead: false, finished: false, free, all_futs, ended: false,
         }
     };
     CASE.with(|c| *c.borrow_mut() = Some(case));
     "ok".into()
+}
+
+/// a consumer stops at the first `Ready(None)`: it must not come before every future has completed, and nothing
+/// may be yielded after it
+fn end_oracle(c: &Case, now_done: bool, yielded: bool) -> Option<String> {
+    if c.known_class {
+        return None;
+    }
+    if now_done && !c.all_futs.iter().all(|k| c.env.is_sent(*k)) {
+        return Some("fail ended-before-all-futures-completed".into());
+    }
+    if c.ended && yielded {
+        return Some("fail chunk-after-end".into());
+    }
+    None
 }
 
 fn poll_oracle(c: &Case) -> Option<String> {
@@ -734,8 +766,17 @@ fn op(line: &str) -> String {
                 format!("case {n} tags={}", tags.join(","))
             }
         }
-        ["prog", mode, d0, toks @ ..] => start(false, mode, d0, toks),
-        ["view", mode, d0, toks @ ..] => start(true, mode, d0, toks),
+        ["prog", mode, d0, toks @ ..] => start(false, false, mode, d0, toks),
+        ["view", mode, d0, toks @ ..] => start(true, false, mode, d0, toks),
+        ["viewf", mode, d0, toks @ ..] => start(true, true, mode, d0, toks),
+        ["drain"] => CASE.with(|c| {
+            let c = c.borrow();
+            let Some(c) = c.as_ref() else { return "bad-op".to_string() };
+            if c.level_b {
+                c.owner.with(|| sched::run_until_idle(100_000));
+            }
+            "ok".into()
+        }),
         ["send", ks] => {
             let Some(ks) = ks.split(',').map(|x| x.parse::<usize>().ok()).collect::<Option<Vec<_>>>() else {
                 return "bad-op".into();
@@ -777,9 +818,10 @@ fn op(line: &str) -> String {
                 return "dead".into();
             }
             let owner = c.owner.clone();
-            if c.level_b {
+            if c.level_b && !c.free {
                 owner.with(|| sched::run_until_idle(100_000));
             }
+            let free = c.free;
             let waker = sched::noop_waker();
             let mut cx = Context::from_waker(&waker);
             let stream = c.stream.as_mut().unwrap();
@@ -789,21 +831,25 @@ fn op(line: &str) -> String {
                     c.dead = true;
                     "panic".into()
                 }
-                Ok(Poll::Pending) => "pending".into(),
+                Ok(Poll::Pending) => if free { "-".into() } else { "pending".into() },
                 Ok(Poll::Ready(None)) => {
                     c.finished = true;
-                    match poll_oracle(c) {
-                        Some(v) => format!("done ## {v}"),
-                        None => "done".into(),
+                    let o = if free { "-" } else { "done" };
+                    let e = end_oracle(c, true, false);
+                    c.ended = true;
+                    match e.or_else(|| poll_oracle(c)) {
+                        Some(v) => format!("{o} ## {v}"),
+                        None => o.into(),
                     }
                 }
                 Ok(Poll::Ready(Some(s))) => {
                     c.finished = false;
                     c.raw.push_str(&s);
                     let empty = if s.is_empty() { Some("fail empty-chunk".to_string()) } else { None };
+                    let o = if free { "-".to_string() } else { format!("item {}", hex(s.as_bytes())) };
                     match empty.or_else(|| poll_oracle(c)) {
-                        Some(v) => format!("item {} ## {v}", hex(s.as_bytes())),
-                        None => format!("item {}", hex(s.as_bytes())),
+                        Some(v) => format!("{o} ## {v}"),
+                        None => o,
                     }
                 }
             }
@@ -840,6 +886,7 @@ fn ser_ops(ops: &[Op], out: &mut Vec<String>) {
             Op::Sync(s) => out.push(format!("s{}", hex(s.as_bytes()))),
             Op::Fallback(s) => out.push(format!("f{}", hex(s.as_bytes()))),
             Op::NextId => out.push("i".into()),
+            Op::Finish => out.push("F".into()),
             Op::Sub(b) => {
                 out.push("b[".into());
                 ser_ops(b, out);
@@ -1007,9 +1054,17 @@ impl Gen {
         let mut out = vec![];
         for _ in 0..len {
             match self.r.below(if depth > 0 && self.futs < max_f { 10 } else { 5 }) {
-                0 | 1 => {
+                0 => {
                     let t = self.tok("x");
                     out.push(Op::Sync(format!("<b>{t}</b>")))
+                }
+                1 => {
+                    if self.r.chance(1, 2) {
+                        out.push(Op::Finish)
+                    } else {
+                        let t = self.tok("x");
+                        out.push(Op::Sync(format!("<i>{t}</i>")))
+                    }
                 }
                 2 => out.push(Op::NextId),
                 3 => {
@@ -1219,6 +1274,52 @@ fn gen(seed: u64, n: usize, path: &str, tier: &str) -> std::io::Result<()> {
             let head = format!("prog {} - {}", if *ooo { "ooo" } else { "io" }, toks.join(" "));
             write_case(&mut f, &format!("xa{si}-{id}~builder~{}~exhaustive", if *ooo { "ooo" } else { "io" }), &head, false, sch, &mut runs, futs.len() * 2 + 3, true)?;
         }
+    }
+    // ---- free interleavings (stream polls while executor tasks are still runnable): views outside the known classes
+    let mut r = Rng::new(seed ^ 0xf4ee);
+    for c in 0..n / 4 {
+        let mut g = Gen { r: Rng::new(r.next()), futs: 0, toks: 0, budget: 12 };
+        let mode = if g.r.chance(1, 2) { "ooo" } else { "io" };
+        let max_f = g.r.range(1, 5);
+        let nv = g.r.range(1, 3);
+        let vs: Vec<V> = (0..nv).map(|_| g.view(3, max_f, Ctx::Top, false)).collect();
+        let mut futs = vec![];
+        futs_of_views(&vs, &mut futs);
+        if futs.is_empty() {
+            continue;
+        }
+        let extra = async_nodes(&vs);
+        let mut toks = vec![];
+        ser_views(&[V::El("div".into(), vs)], &mut toks);
+        writeln!(f, "case f{c}~view-free~{mode}")?;
+        writeln!(f, "viewf {mode} - {}", toks.join(" "))?;
+        let mut order = futs.clone();
+        for i in (1..order.len()).rev() {
+            let j = g.r.below(i + 1);
+            order.swap(i, j);
+        }
+        let mut next = 0;
+        while next < order.len() {
+            match g.r.below(6) {
+                0 | 1 => {
+                    writeln!(f, "send {}", order[next])?;
+                    next += 1;
+                }
+                2 | 3 => writeln!(f, "run {}", g.r.below(5))?,
+                4 => writeln!(f, "poll")?,
+                _ => writeln!(f, "drain")?,
+            }
+        }
+        for _ in 0..(futs.len() + extra) * 2 + 4 {
+            match g.r.below(3) {
+                0 => writeln!(f, "run {}", g.r.below(5))?,
+                1 => writeln!(f, "poll")?,
+                _ => {}
+            }
+            writeln!(f, "drain")?;
+            writeln!(f, "poll")?;
+        }
+        writeln!(f, "end check")?;
     }
     // ---- random
     let mut r = Rng::new(seed);
